@@ -89,7 +89,15 @@ fn plan(mix: Mix, thread: usize, ops: usize, rng: &mut Rng) -> ThreadPlan {
             Mix::ListSnapshots => match rng.below(4) {
                 0 | 1 => {
                     let ids: Vec<i64> = (0..GROUP).map(|_| next_id(&mut counter)).collect();
-                    script.push_str(&format!("L.extend ({}, {}, {})\n", ids[0], ids[1], ids[2]));
+                    // every kind of iterable argument: tuple, list, range, iterator, adaptor, generator
+                    match rng.below(6) {
+                        0 => script.push_str(&format!("L.extend ({}, {}, {})\n", ids[0], ids[1], ids[2])),
+                        1 => script.push_str(&format!("L.extend [{}, {}, {}]\n", ids[0], ids[1], ids[2])),
+                        2 => script.push_str(&format!("L.extend {}..{}\n", ids[0], ids[2] + 1)),
+                        3 => script.push_str(&format!("L.extend ({}, {}, {}).iter()\n", ids[0], ids[1], ids[2])),
+                        4 => script.push_str(&format!("L.extend (0..3).each(|k| {} + k)\n", ids[0])),
+                        _ => script.push_str(&format!("L.extend (||\n  yield {}\n  yield {}\n  yield {}\n)()\n", ids[0], ids[1], ids[2])),
+                    }
                     inserted.push((i, ids));
                 }
                 2 => script.push_str(&format!("r {i}, L.to_tuple()\n")),
@@ -167,7 +175,11 @@ fn plan(mix: Mix, thread: usize, ops: usize, rng: &mut Rng) -> ThreadPlan {
             Mix::MapSnapshots => match rng.below(4) {
                 0 | 1 => {
                     let ids: Vec<i64> = (0..GROUP).map(|_| next_id(&mut counter)).collect();
-                    script.push_str(&format!("M.extend {{'a{}': {}, 'b{}': {}, 'c{}': {}}}\n", ids[0], ids[0], ids[0], ids[1], ids[0], ids[2]));
+                    match rng.below(3) {
+                        0 => script.push_str(&format!("M.extend {{'a{}': {}, 'b{}': {}, 'c{}': {}}}\n", ids[0], ids[0], ids[0], ids[1], ids[0], ids[2])),
+                        1 => script.push_str(&format!("M.extend [('a{}', {}), ('b{}', {}), ('c{}', {})]\n", ids[0], ids[0], ids[0], ids[1], ids[0], ids[2])),
+                        _ => script.push_str(&format!("M.extend (0..3).each(|k| ('k{{k}}_{}', {} + k))\n", ids[0], ids[0])),
+                    }
                     inserted.push((i, ids));
                 }
                 2 => script.push_str(&format!("r {i}, M.values().to_tuple()\n")),
